@@ -24,6 +24,14 @@ def safe_run(mod, case):
                 'tb': traceback.format_exc().strip().split('\n')[-3:]}
 
 
+def safe_oracle(mod, case, obs):
+    try:
+        return mod.oracle(case, obs)
+    except Exception as e:   # an oracle that cannot judge an observation must not pass silently
+        return {'sig': 'oracle-crashed', 'what': 'the oracle could not evaluate this observation: %s: %s' % (
+            type(e).__name__, str(e)[:200])}
+
+
 def match_known(known, fail):
     for k in known:
         if k.get('status') == 'known' and k.get('signature') == fail.get('sig'):
@@ -56,7 +64,7 @@ def main():
             core.log('proof stage now: ' + ('ok' if pr['ok'] else 'BROKEN ' + '; '.join(pr['errors'])))
             sys.exit(0 if pr['ok'] else 1)
         obs = safe_run(mod, case)
-        fail = mod.oracle(case, obs)
+        fail = safe_oracle(mod, case, obs)
         core.coq_build(' '.join(getattr(mod, 'COQ_TARGETS', ['models'])))
         bad, nbad, errs = core.run_shards(pid, mod.coq_preamble(), mod.CTYPE, mod.CHECKER,
                                           [mod.coq_term(case, obs)])
@@ -96,7 +104,7 @@ def main():
     t_impl = time.time() - t0
     fails = []
     for i, (c, o) in enumerate(zip(cases, obs)):
-        f = mod.oracle(c, o)
+        f = safe_oracle(mod, c, o)
         if f:
             f['index'] = i
             fails.append(f)
@@ -142,7 +150,7 @@ def main():
             c = pool.pop()
             o = safe_run(mod, c)
             searched += 1
-            f = mod.oracle(c, o)
+            f = safe_oracle(mod, c, o)
             if f and not match_known(known, f):
                 f['index'] = len(cases)
                 cases.append(c)
